@@ -63,3 +63,13 @@ Theorem C10_all_handlers_from_source : forall h c tok line wok ready,
   Model.SshdSketch.run_generated h c tok line wok ready = Some (Model.SshdProc.run_handler h c tok line wok ready).
 Proof. exact Proofs.SshdHandlersTie.all_handlers_from_source. Qed.
 Print Assumptions C10_all_handlers_from_source.
+
+(* ---------- one writer, one unbuffered hand-off channel: read from cmd/namedpipe.go ----------
+   GENERATED on every run from RunNamedPipe: exactly one event writer is created, by
+   auditevent.NewDefaultAuditEventWriter on the opened events file, and that one value is what both the
+   sshd processor and the audit processor write to; exactly one logins channel is created, without a
+   capacity, and both processors use it (a hand-off completes only when the correlator takes the login). *)
+From AM Require Gen.OutputWiring.
+Theorem C10_output_wiring_from_source : Gen.OutputWiring.output_wiring_ok = true.
+Proof. vm_compute. reflexivity. Qed.
+Print Assumptions C10_output_wiring_from_source.
